@@ -876,11 +876,13 @@ class EClass(EClassifier):
         if notif.feature is EClass.eSuperTypes:
             self._update_supertypes()
         elif notif.kind in (Kind.REMOVE, Kind.REMOVE_MANY):
-            if notif.kind is Kind.REMOVE:
-                delattr(self.python_class, notif.old.name)
-            elif notif.kind is Kind.REMOVE_MANY:
-                for feature in notif.old:
-                    delattr(self.python_class, feature.name)
+            is_operation = notif.feature is EClass.eOperations
+            removed = (notif.old,) if notif.kind is Kind.REMOVE else notif.old
+            for feature in removed:
+                # a method lives under the normalized name of its operation
+                delattr(self.python_class,
+                        feature.normalized_name() if is_operation
+                        else feature.name)
         elif notif.feature is EClass.eOperations:
             if notif.kind is Kind.ADD:
                 self.__create_fun(notif.new)
